@@ -1675,6 +1675,20 @@ class Tr:
             env2_[vb] = (vb, ("slice", "u64"))
             return "%s let %s := %s in do %s <- subslice %s 0 %s ; do %s <- subslice %s %s (lenZ %s) ;\n  %s" % (
                 " ".join(bn), lov, an, va, par, lov, vb, par, lov, par, rest(env2_))
+        if k == "let" and s[1][0] == "ptuple" and len(s[1][1]) == 2 and all(q[0] == "pvar" for q in s[1][1]) \
+                and s[3][0] == "mcall" and s[3][2] == "split_at" and len(s[3][3]) == 1:
+            # `let (a, b) = xs.split_at(n);` on a shared slice: n beyond the length panics
+            b0, a0, t0 = self.ex(f, s[3][1], env)
+            if not (isinstance(t0, tuple) and t0[0] in ("slice", "arr")):
+                raise Unsupported("split_at on a non-slice")
+            bn, an, _ = self.ex(f, s[3][3][0], env, "usize")
+            f.impure = True
+            va, vb = s[1][1][0][1], s[1][1][1][1]
+            env2_ = dict(env)
+            env2_[va] = (va, ("slice", "u64"))
+            env2_[vb] = (vb, ("slice", "u64"))
+            return "%s do %s <- subslice %s 0 %s ; do %s <- subslice %s %s (lenZ %s) ;\n  %s" % (
+                " ".join(b0 + bn), va, paren(a0), paren(an), vb, paren(a0), paren(an), paren(a0), rest(env2_))
         if k == "let" and s[3][0] == "try":
             # `let p = E?;` in a function returning Option: None is returned at once
             b, a, t = self.ex(f, s[3][1], env)
@@ -2114,6 +2128,15 @@ class Tr:
                     nm = env[recv[1]][0]
                     return "%s if negb (lenZ %s =? lenZ %s) then Panic else let %s := %s in\n  %s" % (
                         " ".join(b), nm, paren(a), nm, a, rest(env))
+                if e[2] == "copy_from_slice" and recv[0] == "slice" and recv[1][0] == "var" and len(e[3]) == 1:
+                    # `xs[lo..hi].copy_from_slice(src)`: the window must have the length of src
+                    nm = env[recv[1][1]][0]
+                    b_, sa_, lo_, hi_ = self.slice_bounds(f, recv, env)
+                    bsrc, asrc, tsrc = self.ex(f, e[3][0], env)
+                    w_ = f.fresh()
+                    return "%s do %s <- subslice %s %s %s ; if negb (lenZ %s =? lenZ %s) then Panic else let %s := splice %s %s %s in\n  %s" % (
+                        " ".join(b_ + bsrc), w_, paren(sa_), paren(lo_), paren(hi_), w_, paren(asrc),
+                        recv[1][1], nm, paren(lo_), paren(asrc), rest(env))
                 if e[2] == "copy_within" and recv[0] == "var" and len(e[3]) == 2 and e[3][0][0] == "range":
                     nm = env[recv[1]][0]
                     bl, al = ([], "0") if e[3][0][1] is None else self.ex(f, e[3][0][1], env, "usize")[:2]
@@ -2406,6 +2429,11 @@ TARGETS = [
     ("src/modular.rs", UINT_IMPL, "square_redc", "U.square_redc", "g_u_square_redc", "uint"),
     ("src/bits.rs", UINT_IMPL, "reverse_bits", "U.reverse_bits", "g_reverse_bits", "uint"),
     ("src/bits.rs", UINT_IMPL, "most_significant_bits", "U.most_significant_bits", "g_most_significant_bits", "uint"),
+    ("src/lib.rs", UINT_IMPL, "overflowing_from_limbs_slice", "U.overflowing_from_limbs_slice", "g_overflowing_from_limbs_slice", "uint"),
+    ("src/lib.rs", UINT_IMPL, "from_limbs_slice", "U.from_limbs_slice", "g_from_limbs_slice", "uint"),
+    ("src/lib.rs", UINT_IMPL, "checked_from_limbs_slice", "U.checked_from_limbs_slice", "g_checked_from_limbs_slice", "uint"),
+    ("src/lib.rs", UINT_IMPL, "wrapping_from_limbs_slice", "U.wrapping_from_limbs_slice", "g_wrapping_from_limbs_slice", "uint"),
+    ("src/lib.rs", UINT_IMPL, "saturating_from_limbs_slice", "U.saturating_from_limbs_slice", "g_saturating_from_limbs_slice", "uint"),
     ("src/pow.rs", UINT_IMPL, "overflowing_pow", "U.overflowing_pow", "g_overflowing_pow", "uint"),
     ("src/pow.rs", UINT_IMPL, "checked_pow", "U.checked_pow", "g_checked_pow", "uint"),
     ("src/pow.rs", UINT_IMPL, "saturating_pow", "U.saturating_pow", "g_saturating_pow", "uint"),
